@@ -160,3 +160,41 @@ def run(prop, tier, exe, budget_s=600):
         rec['reproduce'] = '(cd /verif/replay && cargo build --offline && VERIF_TIER=%s ./target/debug/replay %s)' % (tier, mode)
         out.append(rec)
     return out
+
+
+# Which properties a hit of a multi-property mode concerns, by the check that produced it (the text of `detail` is produced by
+# replay/src/bounded.rs).  A mode serves several properties because it runs several oracles over the same documents; a failed oracle is
+# reported only under the properties it states.  No rule => every property the mode serves.
+import re as _re
+_HIT_RULES = [
+    (r'^panic \(allow_width_overflow', {'C01', 'C11'}),
+    (r'^panic', {'C01'}),
+    (r'^with overflow allowed, line', {'C11'}),
+    (r'although width overflow is allowed|allow_width_overflow changed|^width 0 did not give', {'C11'}),
+    (r'pad_block_width changed more than trailing spaces under overflow', {'C11', 'C15'}),
+    (r'^with link footnotes: line .* columns wide', {'C02'}),
+    (r'^line .* is \d+ columns wide|^line .* wider than \d+', {'C02', 'C12', 'C07'}),
+    (r'^cell characters .* but output characters', {'C03', 'C06'}),
+    (r'^lines of a side-by-side table differ|^first or last line is not a rule|but bar above=', {'C05', 'C06'}),
+    (r'does not start with its prefix', {'C07', 'C16'}),
+    (r'^trivial decorator: output characters', {'C03', 'C16'}),
+    (r'greedy reference', {'C04'}),
+    (r'although every character fits', {'C04'}),
+    (r'^no error although a wide character cannot fit', {'C04', 'C02'}),
+    (r'^non-space characters .* source|expected the source lines', {'C12', 'C03'}),
+    (r'tagged preformatted', {'C12', 'C09'}),
+]
+
+
+def hit_props(mode, detail, served):
+    """served: the properties whose MODES list contains `mode`."""
+    for rx, props in _HIT_RULES:
+        if _re.search(rx, detail or ''):
+            inter = props & set(served)
+            # a hit that concerns none of the properties the mode serves is kept for all of them (never dropped)
+            return inter or set(served)
+    return set(served)
+
+
+def served_by(mode):
+    return [p for p, ms in MODES.items() if mode in ms]
